@@ -75,10 +75,14 @@ class _Phase:
             if isinstance(e.value, (int, float)):
                 return sp.nsimplify(e.value)
         if isinstance(e, ast.Name):
+            if e.id in self.defs and depth < 6:
+                d = self.defs[e.id]
+                if isinstance(d, ast.Subscript) and isinstance(d.slice, ast.Constant) and d.slice.value == "xi" \
+                        and ("params" in norm(d.value) or "_get_all_params(" in norm(d.value)):
+                    return XI
+                return self.ev(d, depth + 1)
             if e.id == "xi":
                 return XI
-            if e.id in self.defs and depth < 6:
-                return self.ev(self.defs[e.id], depth + 1)
         if isinstance(e, ast.BinOp):
             l, r = self.ev(e.left, depth), self.ev(e.right, depth)
             if isinstance(e.op, ast.Mult):
@@ -178,7 +182,12 @@ def clause_b(ctx: Context) -> None:
         alpha_f = sc["displacement"]
     g = idx.find_function(GAUSS, "displacement")
     added: Optional[sp.Expr] = None
-    ev = ld.LadderEval({"r": ld.Sc(ld.R), "phi": ld.Sc(ld.PHI)})
+    from ..algebra import local_param_env
+    env0 = {"r": ld.Sc(ld.R), "phi": ld.Sc(ld.PHI)}
+    for k, v in local_param_env(g.node, {"r": ld.R, "phi": ld.PHI}).items():
+        if v != "<np>":
+            env0[k] = ld.Sc(v)
+    ev = ld.LadderEval(env0)
     for n in walk_no_nested(g.node):
         if isinstance(n, ast.BinOp) and isinstance(n.op, ast.Add) and isinstance(n.left, ast.Subscript) and "_m" in norm(n.left.value):
             try:
@@ -200,10 +209,20 @@ def clause_b(ctx: Context) -> None:
     # squeezing
     fwd = idx.find_function(GATEM, "create_single_mode_squeezing_matrix")
     sc = _scalars(fwd)
-    if "sechr" not in sc or "A" not in sc:
-        ctx.error("C01b: the squeezing builder no longer names its scalars `sechr` and `A`; undecided")
+    gq = sc.get("sechr")
+    Aq = sc.get("A")
+    if gq is None or Aq is None:
+        # the locals were renamed: take the scalars by their role - the one that is a function of r alone and tends to 1 at r = 0 while
+        # decaying (g), and the one carrying the phase e^{i phi} and vanishing at r = 0 (A)
+        for v in sc.values():
+            if gq is None and not v.has(ld.PHI) and v.has(ld.R) and sp.simplify(v.subs(ld.R, 0) - 1) == 0 and sp.limit(v, ld.R, sp.oo) == 0:
+                gq = v
+            if Aq is None and v.has(ld.PHI) and v.has(ld.R) and sp.simplify(v.subs(ld.R, 0)) == 0 and sp.simplify(sp.Abs(v.subs(ld.PHI, 0)) - sp.Abs(v.subs(ld.PHI, 1))) == 0 \
+                    and not v.has(sp.conjugate):
+                Aq = v
+    if gq is None or Aq is None:
+        ctx.error("C01b: the scalars of the squeezing builder (sech r and e^{i phi} tanh r) cannot be identified; undecided")
         return
-    gq, Aq = sc["sechr"], sc["A"]
     cls = idx.find_class(GATES, "Squeezing")
     info = reg.instruction(cls)
     syms = gate_symbols(info)
